@@ -38,7 +38,10 @@ type Scenario struct {
 	Name string
 	// Bound overrides Config.Bound when non-nil (negative = unbounded).
 	Bound *int
-	New   func() Instance
+	// DefaultOnly runs only the default (non-preemptive, lowest-id-first) schedule: for
+	// structural scenarios whose failure does not depend on the schedule. Reported as such.
+	DefaultOnly bool
+	New         func() Instance
 	// Meta is copied into replay files and samples.
 	Meta any
 }
@@ -79,6 +82,7 @@ type Stats struct {
 	MaxSteps    int            `json:"max_steps"`
 	Exhaustive  bool           `json:"exhaustive"`
 	Bound       int            `json:"bound"`
+	DefaultOnly bool           `json:"default_only,omitempty"`
 	Switched    int64          `json:"with_context_switch"`
 	Found       []Found        `json:"found,omitempty"`
 	SampleTrace []string       `json:"sample_trace,omitempty"`
@@ -223,6 +227,10 @@ func ExploreScenario(sc *Scenario, cfg Config) Stats {
 		expect := make([]string, len(tr))
 		for i := range tr {
 			expect[i] = stepKey(tr[i])
+		}
+		if sc.DefaultOnly {
+			st.DefaultOnly = true
+			break
 		}
 		// push in reverse so that earlier points / lower alternatives are explored first
 		var kids []frame
@@ -440,6 +448,7 @@ func Summarize(c *common.Check, cfg Config, all []Stats, nscen int) {
 	outcomes := 0
 	kinds := map[string]int{}
 	maxCost := 0
+	defOnly := 0
 	vacuous := []string{}
 	perScenario := []map[string]any{}
 	for _, st := range all {
@@ -455,6 +464,9 @@ func Summarize(c *common.Check, cfg Config, all []Stats, nscen int) {
 		}
 		for k, v := range st.Kinds {
 			kinds[k] += v
+		}
+		if st.DefaultOnly {
+			defOnly++
 		}
 		if st.MaxCost > maxCost {
 			maxCost = st.MaxCost
@@ -479,7 +491,7 @@ func Summarize(c *common.Check, cfg Config, all []Stats, nscen int) {
 	c.Cov["distinct_outcomes_summed_over_scenarios"] = outcomes
 	c.Cov["final_state_kinds"] = kinds
 	c.Cov["exhaustive"] = exhaustive
-	c.Cov["bounds"] = map[string]any{"deviation_bound": cfg.Bound, "max_steps": cfg.MaxSteps, "scenarios": nscen, "max_deviations_seen": maxCost}
+	c.Cov["bounds"] = map[string]any{"deviation_bound": cfg.Bound, "max_steps": cfg.MaxSteps, "scenarios": nscen, "max_deviations_seen": maxCost, "default_schedule_only_scenarios": defOnly}
 	c.Cov["one_outcome_scenarios"] = vacuous
 	if len(perScenario) <= 120 {
 		c.Cov["per_scenario"] = perScenario
